@@ -267,17 +267,36 @@ _c("C13",
 
 _c("C01",
    "Coq theorems (Props/C01.v, closed under the global context) over the executable model of the validating entry points "
-   "(Struct/Instance.v construct/clone_with/cast_to/from_other, Struct/Entry.v: keyword construction, deserialization as construct on "
-   "the lifted document, from_other_class, shallow_clone_with_overrides, cast_to, wrapping, copy/deepcopy/pickle): vset soundness "
+   "(Struct/Instance.v construct/clone_with/cast_to/from_other, Struct/Entry.v: keyword construction, deserialization, "
+   "from_other_class, shallow_clone_with_overrides, cast_to, wrapping, copy/deepcopy/pickle): vset soundness "
    "for every declaration by structural induction (C01_vset_sound: an accepted stable value's stored normal form is accepted by the "
    "documented rules docb, which are written independently of vset), construct soundness (required present, every stored value "
    "conforms, no undeclared attribute unless allowed, hook accepts), every single entry point, and chains of ANY length by induction "
    "(C01_chain_sound, C01_chain_deep_sound for nested instances); the unconditional field statement is refuted by the "
-   "normalisation-collision witness. Each step of generated chains of 1-4 real entry points is run on typedpy; the reified instance is "
-   "judged by the independent spec (inst_ok, deep_valid) and compared with the model's run_entry inside Coq.",
-   "Trusted: Coq kernel + vm_compute; Instance.v/Entry.v hand-written; copy/deepcopy/pickle value-preserving in the model (compared up to "
-   "==); deserialization pre-processing compared on flat documents only; StructureReference, date/time fields, constants not generated.",
-   "Coq proof (structural induction over declarations, induction over entry-point chains) + model/implementation correspondence in vm_compute")
+   "normalisation-collision witness. Deserialization is also proved with its real pre-processing (C01_deser_sound, "
+   "C01_deserialize_sound, C01_deser_then_chain_sound over Ser/Deserialize.v: any document, nested objects/collections/multi-field "
+   "wrappers/Enum names, keep_undefined, compact form), and shown to BE the entry point EDeser on the computed keyword arguments "
+   "(C01_deser_as_entry); nested instances: the domain-checked deserializer deser_checked agrees with deser_struct whenever it returns "
+   "(C01_deser_checked_agrees: deserialize_single_field is monotone in the function used for nested classes) and its result is valid "
+   "together with every instance nested in it (C01_deser_deep_sound; both by structural induction over the deserializer's code). "
+   "Two assumptions of the hand-written model are re-derived from the working tree on every run: (1) HOW each "
+   "entry point produces its result is a table read off the AST (Gen/EntrySites.v: kinds of every return statement of "
+   "shallow_clone_with_overrides, cast_to, from_other_class, __deepcopy__, __copy__, __getstate__, deserialize_structure(_internal), "
+   "Deserializer.deserialize); C01 is proved for EVERY safe table (C01_entry_sites_sound, C01_chain_sites_sound), an unsafe table has "
+   "a constructed violating input (C01_sites_characterisation), and today's table is checked by the kernel (C01_entry_sites_today); "
+   "(2) Enum._validate/__set__ are translated to Gallina (Gen/GuardsEnum.v) and proved equal to the model for every enum class, "
+   "declared subset, literal list and value (C01_src_Enum_cls_set, C01_src_Enum_lit_set). On the implementation: a deterministic "
+   "boundary lattice (47 scalar declarations x 20 collection/multi-field wrappers x the near-miss and falsy values of each x 7 entry "
+   "kinds incl. down- and up-casts between classes that re-declare a field) and random chains of 1-4 real entry points over generated "
+   "class environments are run step by step; every reified instance is judged by the independent spec (inst_ok, deep_valid) and compared "
+   "with the model's run_entry inside Coq; JSON-shaped documents are additionally compared with the deserialization model.",
+   "Trusted: Coq kernel + vm_compute; Instance.v/Entry.v/Deserialize.v hand-written (validated by correspondence); the two recognisers "
+   "harness/genmods/c01_entry_sites.py and c01_enum_guard.py (fail closed: XOther / UNTRANSLATABLE); copy/deepcopy/pickle value-preserving "
+   "in the model (compared up to ==, the recognised copy idioms are what the site table checks); deser_dom / deser_checked / entry_dom restrict the "
+   "theorems to the statement's domain (no bool where a number is expected, int->float exact, stable collection constraints); "
+   "StructureReference, date/time fields, constants, _optional spelling, mappers/camel-case deserialization are not generated.",
+   "Coq proof (structural induction over declarations, induction over entry-point chains, characterisation parametric in a generated "
+   "entry-site table, bridging lemmas to generated guard translations) + model/implementation correspondence in vm_compute")
 _c("C15",
    "Coq theorems (Props/C15.v, closed under the global context) over a model of typedpy's process-wide tables (Global/History.v: "
    "implicit-wrapper registry, class objects, memo tables, installed serializers, counter, defaults) whose key kinds are regenerated "
